@@ -36,6 +36,11 @@ def unsupported_pool(k):
         f'{f} = -({g} + 1);', f'{f} = (int)foo{k}({g});', f'{f} = - -{g};', f'{f} = !({g}++);', f'-({g}++);',
         f'{f} ? ({g} = 1) : ({g} = 2);', f'{f} ? {g}++ : {g}--;', f'{f}[0];', f'(int){f}[{g}];', f'foo{k}({f}), {f}[0] = {g};',
         f'L{k}x: {f} = foo{k}({g});', f'{f} = &{g};', f'{f} = sizeof({g}[0]);',
+        # for statements that are NOT counted loops, of every kind: no guard variable, two guard variables, the
+        # guard stepped by the loop itself, the guard written in the body, a condition with an effect
+        f'for ({f} = 0; {f} < {g}; {g}++) {{ {f} = {f} + 1; }}', f'for ({f} = 0; {f} < {g}; {g}--) {{ ; }}',
+        f'for ({f} = 0; {f} < {g}; {f}++) {{ {g} = {g} + 1; }}', f'for (;;) {{ {f} = {g}; }}',
+        f'for ({f} = 0; {f} < {g} && {f} < hr{k}; {f}++) {{ {g} = {g}; }}', f'for ({f} = 0; {f}++ < {g}; ) {{ ; }}',
         # an unsupported unary operator below ! / sizeof / a cast
         f'{f} = !(*{g});', f'{f} = !(&{g});', f'{f} = sizeof(*{g});', f'{f} = !(~{g});', f'sizeof(*{f});', f'{f} = !(int)(~{g});', f'{f} = ~{g};', f'{f} = -(~{g});',
     ]
